@@ -181,4 +181,39 @@ def lsOutcome (h0 hash0 h1 hash1 : Nat) (m : List Bool) : Nat × Nat :=
   let s := runLS (setLastSigSteps h1 hash1) readLastSigSteps m { height := h0, hash := hash0 }
   (s.rHeight, s.rHash)
 
+/-! ### (4) read-modify-write of one stored record
+
+  `ChainDatabase.setConfirm` on a STABLE block (/repo/store/chain_database.go): `getBlock4DB(hash)` (read the
+  record from Beansdb and decode it into a PRIVATE block), `appendConfirm` (local), `setBlock2DB` (write the
+  record back).  Two writers: `DPoVP.InsertConfirms` (under chainLock) and the `batchConfirmStable`
+  goroutine (outside it); the only thing that makes the triple atomic is `ChainDatabase.RW` held by
+  `SetConfirms` from before the read until after the write back.  Confirms are distinct naturals. -/
+
+structure RS where
+  /-- the stored confirm set of the block -/
+  cell  : List Nat := []
+  /-- (ghost) the confirms whose writer has returned successfully, most recent first -/
+  acked : List Nat := []
+  /-- each writer's private decoded copy -/
+  loc   : Nat → List Nat := fun _ => []
+
+def rmwRead (i : Nat) (s : RS) : RS := { s with loc := fun j => if j = i then s.cell else s.loc j }
+def rmwWrite (i x : Nat) (s : RS) : RS := { s with cell := s.loc i ++ [x], acked := x :: s.acked }
+
+/-- one `setConfirm(hash, [x])` by writer `i`: two shared accesses -/
+def rmwSteps (i x : Nat) : List (RS → RS) := [rmwRead i, rmwWrite i x]
+
+def rmwSec (locked : Bool) (i x : Nat) : Sec RS := ⟨locked, rmwSteps i x⟩
+
+/-- two step lists merged by a Boolean schedule (`false` = first list) -/
+def runMerge2 {σ : Type} : List (σ → σ) → List (σ → σ) → List Bool → σ → σ
+  | f :: a, b, false :: m, s => runMerge2 a b m (f s)
+  | a, g :: b, true :: m, s => runMerge2 a b m (g s)
+  | _, _, _, s => s
+
+/-- (stored set, acknowledged confirms) after two unsynchronised writers appending 1 and 2 -/
+def rmwOutcome (m : List Bool) : List Nat × List Nat :=
+  let s := runMerge2 (rmwSteps 0 1) (rmwSteps 1 2) m {}
+  (s.cell, s.acked)
+
 end LemoModel.Signer
